@@ -165,6 +165,7 @@ bool StepScript(InterpreterEnv& env)
 
         // Update environment
         env.curr_op_seq++;
+        ++env.opcode_pos; // opcode index signed by BIP342 signatures after OP_CODESEPARATOR
         return true;
     }
 
